@@ -23,6 +23,12 @@ def render(c):
         word, vh = "$(vout 1)", {"out.1": pay + "\n"}
     elif d == "bqsub":
         word, vh = "`vout 1`", {"out.1": pay + "\n"}
+    elif d == "var2":
+        word, env = "$PV$PQ", {"PV": pay, "PQ": "z"}
+    elif d == "var2r":
+        word, env = "${PQ}$PV", {"PV": pay, "PQ": "z"}
+    elif d == "dsub2":
+        word, vh, env = "$(vout 1)$PQ", {"out.1": pay + "\n"}, {"PQ": "z"}
     else:
         word, files = "*", {pay: ""}
     if c["q"] == "dq":
@@ -38,7 +44,12 @@ def render(c):
 
 def judge(rep, c, line, b, a, files, res):
     pay = chars(c["pay"])
-    feat = {"del": c["del"], "q": c["q"], "pos": c["pos"], "pay": pay, "pay_is_amp": pay == "&", "chars": sorted(set(pay) & set("|&;<>#"))}
+    raw = pay
+    if c["del"] in ("var2", "dsub2"):
+        pay = pay + "z"
+    elif c["del"] == "var2r":
+        pay = "z" + pay
+    feat = {"del": c["del"], "q": c["q"], "pos": c["pos"], "pay": raw, "pay_is_amp": raw == "&", "chars": sorted(set(pay) & set("|&;<>#"))}
     rec = {"case": c, "line": line, "status": res.get("status"), "stderr": res.get("stderr", "")[-300:], "log": res.get("log"),
            "files": sorted(res.get("files", {}))}
 
@@ -58,7 +69,7 @@ def judge(rep, c, line, b, a, files, res):
         return bad("not-foreground", "the program was not waited for / the next command did not run")
     alts = [b + [pay] + a]
     if c["q"] == "unq" and c["del"] != "glob":
-        alts.append(b + [chars(w) for w in c["split"]] + a)
+        alts.append(b + pay.split() + a)
     if pa[0].get("argv") not in alts:
         return bad("argv", "argv %s, expected %s" % (pa[0].get("argv"), alts[0]))
     extra = sorted(set(res.get("files", {})) - set(files))
